@@ -15,6 +15,18 @@ class S_:
     pass
 
 
+class ListOfChildren(symval.Node):
+    """a list input (length <= n) whose items are arbitrary children: reaches positions inside tuple-like fields"""
+
+    def __init__(self, ctx, n, extra):
+        self.n = ctx.new("n", "int", "0 <= $ <= %d" % n)
+        self.items = [arb.Child(ctx, extra, base=[None, 7, "abc"]) for _ in range(n)]
+
+    def make(self, env):
+        k = pick(env[self.n], len(self.items) + 1)
+        return [self.items[j].make(env) for j in range(k)]
+
+
 class Input(symval.Node):
     """dict input for dataclass T: per field a presence flag; fields in `bad` are arbitrary children, the others
     carry the reference encoding of a conforming symbolic value; plus stranger keys and a non-dict root selector."""
@@ -32,6 +44,10 @@ class Input(symval.Node):
                 flag = None  # pairs: the other fields are always present (their absence is covered by the singles)
             else:
                 flag = ctx.new("p", "bool")
+            if n in bad and tinfo.info(ft).kind in ("namedtuple", "tuple_fixed", "tuple_var", "seq"):
+                node = ListOfChildren(ctx, 4, strs[:2])
+                self.fields.append((n, key, flag, "arb", node, ft))
+                continue
             if n in bad:
                 node = arb.Child(ctx, strs[:6] if len(bad) < 2 else strs[:2])
                 self.fields.append((n, key, flag, "arb", node, ft))
